@@ -8,7 +8,9 @@ import (
 	"fmt"
 	"net/http"
 	"net/http/httptest"
+	nurl "net/url"
 	"reflect"
+	"strings"
 	"sync"
 	"testing"
 
@@ -24,6 +26,45 @@ type verifCase struct {
 	Value   any            `json:"value"`   // the request value, canonically rendered (c05shape.Dump format)
 	Method  string         `json:"method"`  // http method
 	Pattern string         `json:"pattern"` // route with :name segments, e.g. /api/:id/items/:name
+	Direct  *verifDirect   `json:"direct"`  // httpx.Parse called directly on a constructed request
+}
+
+// verifDirect describes a request handed to httpx.Parse without a transport: a GET query, a POST form body, or a
+// header map built programmatically (a key may carry no value at all: Values == nil, or an empty list).
+type verifDirect struct {
+	Kind  string        `json:"kind"` // query | postform | header
+	Pairs []verifValues `json:"pairs"`
+}
+
+type verifValues struct {
+	Key    string   `json:"k"`
+	Values []string `json:"v"` // nil and [] are kept apart
+}
+
+func verifDirectRun(typ reflect.Type, d *verifDirect) map[string]any {
+	var r *http.Request
+	switch d.Kind {
+	case "query", "postform":
+		q := nurl.Values{}
+		for _, p := range d.Pairs {
+			for _, v := range p.Values {
+				q.Add(p.Key, v)
+			}
+		}
+		if d.Kind == "query" {
+			r = httptest.NewRequest(http.MethodGet, "/x?"+q.Encode(), nil)
+		} else {
+			r = httptest.NewRequest(http.MethodPost, "/x", strings.NewReader(q.Encode()))
+			r.Header.Set("Content-Type", "application/x-www-form-urlencoded")
+		}
+	default:
+		r = httptest.NewRequest(http.MethodGet, "/x", nil)
+		r.Header = http.Header{}
+		for _, p := range d.Pairs {
+			r.Header[p.Key] = p.Values
+		}
+	}
+	return c05shape.RunInto(typ, func(v any) error { return httpx.Parse(r, v) })
 }
 
 // TestVerifDriver builds a request from a generated request struct with httpc.buildRequest, sends it with
@@ -44,6 +85,13 @@ func TestVerifDriver(t *testing.T) {
 		var c verifCase
 		if err := json.Unmarshal(raw, &c); err != nil {
 			return map[string]any{"error": err.Error()}
+		}
+		if c.Direct != nil {
+			var typ reflect.Type
+			if panicked, pv := verifdrv.Catch(func() { typ = c.Shape.Build() }); panicked {
+				return map[string]any{"error": "shape: " + pv}
+			}
+			return map[string]any{"d": verifDirectRun(typ, c.Direct)}
 		}
 		if !c.RT {
 			return map[string]any{}
